@@ -64,7 +64,10 @@ fn args() -> Result<Argument, Box<dyn Error>> {
 
     let mut args = vec![];
     for arg in env::args_os() {
-        args.push(arg.into_string().map_err(|_| "Specify arguments in UTF-8.")?);
+        args.push(
+            arg.into_string()
+                .map_err(|_| "Specify arguments in UTF-8.")?,
+        );
     }
     let mut args = args.into_iter();
     args.next(); // skip exe.
